@@ -10,6 +10,15 @@ package quiesce
 import (
 	"runtime"
 	"strings"
+	"time"
+)
+
+// OnStuck, if set, is called with a goroutine dump when Wait has been spinning for StuckAfter
+// without reaching quiescence (a goroutine of the system under test is busy or blocked on a
+// mutex / channel send for good).  Safety net only: no verdict depends on timing.
+var (
+	OnStuck    func(dump string)
+	StuckAfter = 30 * time.Second
 )
 
 var busyPrefixes = []string{"running", "runnable", "syscall", "sync.Mutex.Lock", "sync.RWMutex", "chan send", "copystack", "preempted"}
@@ -55,10 +64,17 @@ func allParked() bool {
 // true (e.g. "my input channel is empty").
 func Wait(extra func() bool) {
 	ok := 0
+	start := time.Now()
 	for spin := 0; ; spin++ {
 		runtime.Gosched()
 		if spin%8 != 7 {
 			continue
+		}
+		if OnStuck != nil && spin%4096 == 4095 && time.Since(start) > StuckAfter {
+			buf := make([]byte, 1<<20)
+			n := runtime.Stack(buf, true)
+			OnStuck(string(buf[:n]))
+			start = time.Now()
 		}
 		if allParked() && (extra == nil || extra()) {
 			ok++
